@@ -8,7 +8,7 @@ from ..progen import gen_program, profile
 ID = "C05"
 PREFIX = ('c05:',)
 PROFILE = profile(setdl=7, scope=24, cancel=18, catch=10, group=8, spawn=6, shield=4, ntimeout=9, ntg=6, sleep=12, forever=4, wait=3, ext=2, configs=['S', 'S', 'E', 'U'], native_ext=6, precancel=8, patterns={'double_cancel': 1, 'multi_delivery': 3, 'native_at_group_join': 2, 'native_in_cancelled_scope': 1, '_chance': 24})
-RULE = ('Hypothesis-generated histories of scopes and groups entered and left in sequence and nested on one task with cancel timings giving 0..k re-deliveries, surrounded by asyncio.timeout / asyncio.TaskGroup probes on the virtual clock; non-trivial = a scope absorbed a cancellation and the residue check ran, or a native probe fired; distinct = distinct canonical JSON')
+RULE = ('Hypothesis-generated histories of scopes and groups entered and left in sequence and nested on one task with cancel timings giving 0..k re-deliveries, surrounded by asyncio.timeout / asyncio.TaskGroup probes on the virtual clock; scopes cancelled before they are entered; native Task.cancel() of child tasks by the harness (the count must then equal the number of those requests); non-trivial = a scope absorbed a cancellation and the residue check ran, or a native probe fired; distinct = distinct canonical JSON')
 ASSUMPTIONS = ["reference semantics (mirror) evaluated on public attributes cancel_called/shield of every scope on the chain; the only private access is fetching a child's handle scope object at its first step", 'every indefinite wait sits in a harness guard scope cancelled after 40 cycles', "asyncio's FIFO ready queue is not permuted; schedules vary through generated delays, cancel placement, external loop callbacks and loop configuration"]
 TECHNIQUE = 'Hypothesis-generated scope histories; residue invariants (Task.cancelling(), loop timers/callbacks) and native-construct contracts on a virtual clock'
 LEVEL_TEXT = ("After every scope/group exit with no cancelled scope above: Task.cancelling() is 0; at program end no cancel-scope timer is armed and no delivery callback is queued after 3 drain cycles; asyncio.timeout raises TimeoutError at exactly its instant and never lets CancelledError escape; asyncio.TaskGroup raises its child's ExceptionGroup. Exploration (native probes on the virtual-time loops only).")
